@@ -29,6 +29,15 @@ CHECKS = {
             "amplitude) against dense values; total charge bookkeeping of products and adjoints asserted.",
             "tensor-level convention for dot/mp_norm/expectation (coeff separate), prod(d) <= 400",
             "DESIGN.md section 3 / C03"),
+    "C04": ("exploration",
+            "invariant monitor at quiescent points (isometry recomputed from raw arrays, bond growth, exact caps) plus "
+            "dense reference comparison after every canonicalise/compress call of a generated history",
+            "Objects of all three chain classes with redundant, rank-deficient and unit bonds, one-site chains, every "
+            "stop site, both sweep directions, three lossless compression modes, repetition, and variational compression "
+            "of operator x state; every call is followed by the object/qntot/isometry/bond checks.",
+            "canonical Mpo tensors are isometries up to a positive scalar (by design of the code); centre at sweep start is "
+            "the asserted precondition of canonicalise/compress; prod(d) <= 600",
+            "DESIGN.md section 3 / C04"),
     "C20": ("exploration",
             "icontract postcondition on bipartite_vertex_cover at every call site + hook on _decompose_graph + "
             "small-scope exhaustive enumeration of graphs, against the harness's own maximum matching / brute force",
